@@ -33,6 +33,10 @@ struct CallSpec {
     /// with the next serial while earlier calls are still outstanding
     #[serde(default)]
     jump_to_wrap: u32,
+    /// the arguments contain an atom of 70000 bytes: the request cannot be encoded, the call must fail
+    /// (and leave nothing behind) without anything reaching the peer
+    #[serde(default)]
+    unencodable: bool,
 }
 
 #[derive(Clone, Debug, Serialize, Deserialize, Default)]
@@ -157,7 +161,7 @@ impl Scenario for C17 {
                     _ => r.below(timeout_ms / 3 + 1),
                 };
                 let jump_to_wrap = if r.chance(1, 12) { r.range(1, 4) as u32 } else { 0 };
-                let mut spec = CallSpec { timeout_ms, start_delay_ms: r.below(40), reply, delay_ms, to_unconnected: r.chance(1, 16), jump_to_wrap };
+                let mut spec = CallSpec { timeout_ms, start_delay_ms: r.below(40), reply, delay_ms, to_unconnected: r.chance(1, 16), jump_to_wrap, unencodable: r.chance(1, 20) };
                 if !faults && !spec.to_unconnected && r.chance(1, 12) {
                     // "no timeout": the largest duration there is (u64::MAX here stands for Duration::MAX); the peer answers
                     // (fault-free runs only: with the connection gone such a call has nothing left to wait for, and
@@ -204,7 +208,7 @@ impl Scenario for C17 {
             components_stubbed: &["TCP (SimNet)", "EPMD (stub)", "remote node: handshake acceptor + rex model with an independent frame/term reader"],
             assumptions: &["the peer ticks every 5 simulated seconds so that the receiver's 10 s read timeout (a C19 question) does not interfere", "RpcTimeout is judged inadmissible only if a reply addressed to the call was written by the peer at least `margin` before the call returned (margin = injected network/yield delay bound)"],
             fault_prefixes: &["fault.", "net."],
-            expected_probes: &["probe.c17.ok", "probe.c17.ok_with_unbounded_timeout", "probe.c17.reply_with_legacy_pid_tag", "probe.c17.timeout", "probe.c17.reply_after_timeout_dropped", "probe.c17.duplicate_reply_dropped", "probe.c17.unknown_pid_reply_dropped", "probe.c17.not_connected", "probe.c17.send_failed", "probe.c17.liveness_probe_ok", "probe.c17.counter_moved_to_wrap", "probe.c17.calls_before_start"],
+            expected_probes: &["probe.c17.ok", "probe.c17.ok_with_unbounded_timeout", "probe.c17.unencodable_request_rejected", "probe.c17.reply_with_legacy_pid_tag", "probe.c17.timeout", "probe.c17.reply_after_timeout_dropped", "probe.c17.duplicate_reply_dropped", "probe.c17.unknown_pid_reply_dropped", "probe.c17.not_connected", "probe.c17.send_failed", "probe.c17.liveness_probe_ok", "probe.c17.counter_moved_to_wrap", "probe.c17.calls_before_start"],
         }
     }
 }
@@ -515,8 +519,12 @@ async fn scenario(w: &Arc<World>, p: &Plan) {
                     }
                 }
                 let t0 = World::now_ms();
+                let mut args = vec![OwnedTerm::Integer(ci as i64), OwnedTerm::Integer(ix as i64)];
+                if c.unencodable {
+                    args.push(OwnedTerm::Atom(erltf::types::Atom::new("x".repeat(70_000))));
+                }
                 let r = node
-                    .rpc_call_raw_with_timeout(target, "m", "f", vec![OwnedTerm::Integer(ci as i64), OwnedTerm::Integer(ix as i64)], if c.timeout_ms == u64::MAX { Duration::MAX } else { Duration::from_millis(c.timeout_ms) })
+                    .rpc_call_raw_with_timeout(target, "m", "f", args, if c.timeout_ms == u64::MAX { Duration::MAX } else { Duration::from_millis(c.timeout_ms) })
                     .await;
                 let t1 = World::now_ms();
                 let (ok, err) = match &r {
@@ -598,6 +606,9 @@ fn evaluate(w: &Arc<World>, p: &Plan, sh: &Arc<Mutex<Shared>>) {
         let write_fault_at = g.c2s.as_ref().and_then(|c| c.write_failed_at_ms());
         let fault_before = g.conn_fault_at_ms.map(|t| t <= r.t1).unwrap_or(false) || write_fault_at.map(|t| t <= r.t1).unwrap_or(false);
         match (&r.ok, r.err.as_str()) {
+            (Some(_), _) if spec.unencodable => {
+                w.violation("unencodable-accepted", format!("caller {} call {}: a request with an atom of 70000 bytes returned Ok", r.caller, r.idx));
+            }
             (Some(v), _) => {
                 w.stat("probe.c17.ok");
                 if spec.timeout_ms == u64::MAX {
@@ -646,6 +657,9 @@ fn evaluate(w: &Arc<World>, p: &Plan, sh: &Arc<Mutex<Shared>>) {
                 if !spec.to_unconnected && !fault_before {
                     w.violation("not-connected-while-connected", format!("caller {} call {} got NodeNotConnected at {}ms; no connection fault had occurred", r.caller, r.idx, r.t1));
                 }
+            }
+            (None, _) if spec.unencodable && req.is_none() => {
+                w.stat("probe.c17.unencodable_request_rejected");
             }
             (None, other) => {
                 w.stat("probe.c17.send_failed");
